@@ -15,6 +15,8 @@ Bases == {"standalone", "references-sibling", "reexported-by-init", "unanalysed-
           "private-mixin"}      \* M has a class derived from a private class of another module whose public method mentions a class of a third module
 Perturbs == {"add-plain", "add-same-names", "rename-unrelated", "change-unrelated", "remove-unrelated", "permute-own",
              "reexport-unrelated-same-name",
+             "add-class-named-in-docstring",       \* an unrelated module defines a class called like a type that only a docstring of M names (M does not import it)
+             "reexport-unrelated-prefix-module",   \* the root __init__ re-exports an unrelated module whose name is a string prefix of M's (mmo / mmod)
              "add-sibling-subclass",             \* unrelated modules (enumerated before and after M) with another subclass of the same private class, same member names
              "remove-all-unrelated"}             \* base "feature": M is one declaration form of Pipeline.tla, the rest of the package is the 120 others     \* an unrelated module reuses M's names and the root __init__ re-exports one of *its* classes
 
@@ -31,6 +33,8 @@ Apply(p, k) ==
     [] k = "permute-own" -> [p EXCEPT !.order = 2]
     [] k = "remove-all-unrelated" -> [p EXCEPT !.U = 0]
     [] k = "add-sibling-subclass" -> [p EXCEPT !.U = 4]
+    [] k = "reexport-unrelated-prefix-module" -> [p EXCEPT !.U2 = 5, !.RI = 2]
+    [] k = "add-class-named-in-docstring" -> [p EXCEPT !.U = 5]
     [] k = "reexport-unrelated-same-name" -> [p EXCEPT !.U = 3, !.RI = 1]   \* RI: the root __init__ re-exports a class of U (not of M, not of N)
 StartOf(b, k) == IF k \in {"rename-unrelated", "change-unrelated", "remove-unrelated"} THEN WithU(BasePkg(b)) ELSE BasePkg(b)
 Deps(p) == <<p.M, p.N, p.I>>                       \* what M's stub may depend on
